@@ -18,6 +18,7 @@ func genC08(t *rapid.T) ArgvCase {
 	cfg := DefaultCfg()
 	cfg.RequireOrder = 0
 	cfg.Help = 1
+	cfg.MixedUnknown = true // wrapper commands typically run in Pass mode under a Fail/Warn root
 	cfg.SingleLetters = rapid.IntRange(0, 1).Draw(t, "sl")
 	spec := GenProg(t, cfg)
 	ac := DefaultArgvCfg()
